@@ -13,8 +13,8 @@
 #include "qlibc.h"
 
 #define NK 6
-#define NLEN 5
-static const int LENS[NLEN] = {1, 32, 33, 98, 99};
+#define NLEN 6
+static const int LENS[NLEN] = {1, 32, 33, 98, 99, 33};   /* index 5: a second 33-byte value that equals index 2 up to (and beyond) an embedded NUL and differs in its last byte; put for keys 0 and 4 only */
 static int M; static size_t REGSZ;
 static char KEYS[NK][40]; static size_t KEYN[NK]; static int HOME[NK];
 typedef struct { signed char len[NK]; } model_t;      /* -1 absent, else index into LENS */
@@ -22,7 +22,7 @@ typedef struct { signed char len[NK]; } model_t;      /* -1 absent, else index i
 static int slots_for(int len) { return 1 + (len > 32 ? (len - 32 + EXTBYTES - 1) / EXTBYTES : 0); }
 static int m_used(const model_t *m) { int u = 0; for (int k = 0; k < NK; k++) if (m->len[k] >= 0) u += slots_for(LENS[m->len[k]]); return u; }
 static int m_num(const model_t *m) { int u = 0; for (int k = 0; k < NK; k++) u += m->len[k] >= 0; return u; }
-static void value_of(int k, int li, unsigned char *out) { for (int i = 0; i < LENS[li]; i++) out[i] = (unsigned char)(0x30 + 37 * k + 11 * li + i * 7); out[0] = (unsigned char)('A' + k); }
+static void value_of(int k, int li, unsigned char *out) { int l2 = li == 5 ? 2 : li; for (int i = 0; i < LENS[li]; i++) out[i] = (unsigned char)(0x30 + 37 * k + 11 * l2 + i * 7); out[0] = (unsigned char)('A' + k); if (LENS[li] == 33) { out[1] = 0; if (li == 5) out[32] ^= 0xff; } }
 
 /* ---------- universe: keys with forced home slots, found with the independent MurmurHash3 ---------- */
 static void find_keys(void) {
@@ -34,11 +34,10 @@ static void find_keys(void) {
         if ((int)(ref_mm32(s, strlen(s) + 1) % M) == want[w]) { strcpy(KEYS[n], s); KEYN[n] = strlen(s) + 1; HOME[n] = want[w]; n++; break; }
     }
     /* two long keys: same length, same 16-byte prefix, same home; matched by length + prefix + MD5 only */
-    int home = -1;
+    int home = M > 1 ? 1 : 0;      /* next to the chain of home 0, so that two collision chains interleave (A1@0 B1@1 B2@2 A2@3) */
     for (int i = 0; i < 100000 && n < NK; i++) {
         char s[40]; snprintf(s, sizeof s, "long-key-prefix-%08d", i);
         int h = ref_mm32(s, strlen(s) + 1) % M;
-        if (home < 0) home = h;
         if (h == home) { strcpy(KEYS[n], s); KEYN[n] = strlen(s) + 1; HOME[n] = h; n++; }
     }
 }
@@ -304,7 +303,7 @@ static void setup(void) {
     REGSZ = qhasharr_calculate_memsize(M);
     find_keys();
     NOPS = 0;
-    for (int k = 0; k < NK; k++) for (int li = 0; li < NLEN; li++) OPS[NOPS++] = (op_t){OP_PUT, k, li, (k & 1) ? "qhasharr_put_by_obj" : "qhasharr_put"};
+    for (int k = 0; k < NK; k++) for (int li = 0; li < NLEN; li++) if (li < 5 || k == 0 || k == 4) OPS[NOPS++] = (op_t){OP_PUT, k, li, (k & 1) ? "qhasharr_put_by_obj" : "qhasharr_put"};
     for (int k = 0; k < NK; k++) OPS[NOPS++] = (op_t){OP_REMOVE, k, 0, (k & 1) ? "qhasharr_remove_by_obj" : "qhasharr_remove"};
     for (int i = -1; i <= M + 1; i++) OPS[NOPS++] = (op_t){OP_REMOVEIDX, i, 0, "qhasharr_remove_by_idx"};   /* -1, M, M+1: indexes that are no slot */
     OPS[NOPS++] = (op_t){OP_CLEAR, 0, 0, "qhasharr_clear"};
@@ -325,7 +324,7 @@ static int search(void) {
     while (b.head < b.nnodes) {
         long idx = b.head++; int d = bfs_history(&b, idx, hist);
         if ((idx & 0xff) == 0 && vc_deadline_hit()) { complete = 0; break; }
-        if (vc_nviol > 400) { complete = 0; break; }   /* enough counterexamples: do not explore the damaged state space to its end */
+        if (VC_ENOUGH_VIOLATIONS()) { complete = 0; break; }   /* enough counterexamples: do not explore the damaged state space to its end */
         memcpy(cur, IMG + idx * REGSZ, REGSZ); model_t mc = MOD[idx];
         char *k = key; k += sprintf(k, "hasharr:%d:", M); for (int i = 0; i < d; i++) k += sprintf(k, "%d,", hist[i]);
         for (int op = 0; op < NOPS; op++) {
